@@ -129,7 +129,41 @@ static Verdict run_hist(const Case &c) {
     return v;
 }
 
-static Verdict run(const Case &c) { return c.c(0) == 1 ? run_hist(c) : run_step(c); }
+// part 2: the 30 s rule through the primitive API (no frame flow): cfg [0]=2 [1] state [2] sessions in the table [3] charges [4] silence s
+static Verdict run_tick30(const Case &c) {
+    Verdict v;
+    World w;
+    int st = (int)std::max<int64_t>(0, std::min<int64_t>(c.c(1), 2)), nsess = (int)std::max<int64_t>(0, std::min<int64_t>(c.c(2), 16)), charges = (int)std::max<int64_t>(0, std::min<int64_t>(c.c(3), 5));
+    int64_t silence = std::max<int64_t>(0, c.c(4));
+    vp_set_now_ms(100000);
+    void *a = fresh(st), *t = br_st_create();
+    void *ms = br_aut_extra(a);
+    for (int i = 0; i < nsess; i++) { Mac m = mac_from_u64(0x02AA00000000ULL + (uint64_t)i); br_st_add(t, m.b, 1, 1); }
+    for (int i = 0; i < charges; i++) br_mapping_on_charge(ms);
+    br_mapping_reset_inactive_timeout(ms);                 // "a frame was received now"
+    vp_set_now_ms(100000 + (uint64_t)silence * 1000);
+    int before = br_aut_state(a);
+    br_tick(a, nullptr, t, nullptr, nullptr, nullptr, 0);
+    br_mapst m2; br_mapst_get(ms, &m2);
+    int got = br_aut_state(a);
+    // sessions added "now" cannot have expired by the 60 s rule unless silence > 60
+    if (silence >= 31) {
+        if (got != 0) v.fail(fmt("state %d, %lld s without a frame: the tick left the mapping state %d", st, (long long)silence, got));
+        else if (m2.ctc != 0 || m2.charge_ts != 0) v.fail(fmt("%lld s without a frame: charge counter still %u", (long long)silence, m2.ctc));
+        else if (!br_st_is_empty(t)) v.fail(fmt("mapping state %d, %lld s without a frame: the session table still holds %u session(s) after the tick", st, (long long)silence, br_st_count(t)));
+    } else if (silence <= 29) {
+        if (got != before) v.fail(fmt("tick %lld s after the last frame changed the mapping state %d -> %d", (long long)silence, before, got));
+        else if ((int)br_st_count(t) != nsess) v.fail(fmt("tick %lld s after the last frame emptied the session table", (long long)silence));
+        else if (silence == 0 && (int)m2.ctc != charges) v.fail("tick at the instant of the charge reset the counter");
+    }
+    br_st_destroy(t);
+    br_automata_destroy(a);
+    v.nontrivial = silence >= 31 && (nsess > 0 || charges > 0 || st != 0);
+    v.cls(silence >= 31 ? "tick30-must-end" : silence <= 29 ? "tick30-must-not-end" : "tick30-boundary");
+    return v;
+}
+
+static Verdict run(const Case &c) { return c.c(0) == 1 ? run_hist(c) : c.c(0) == 2 ? run_tick30(c) : run_step(c); }
 
 int main(int argc, char **argv) {
     Args a = parse_args(argc, argv);
@@ -137,7 +171,7 @@ int main(int argc, char **argv) {
     Current::install(a.failing);
     Evidence ev;
     ev.rule = "(1) exhaustive single steps: 3 states x inputs -128..255 x elapsed {0, t-1, t, t+1, 10t} s (Idle: {0,1,5,31,300}) from a fresh automaton driven into the start state by legal inputs, "
-              "judged by the transition table of the statement. (2) random histories of frames (all opcodes)/whole-second clock advances/ticks through the transcribed Darwin frame flow: state after each frame, "
+              "judged by the transition table of the statement. (1b) the 30 s rule through the primitive API: 3 states x {0,1,16} sessions x {0,3} charges x silence {0,1,29,30,31,45,60,61,120} s. (2) random histories of frames (all opcodes)/whole-second clock advances/ticks through the transcribed Darwin frame flow: state after each frame, "
               "tick-driven session end after >= 31 s of silence (state Idle, charge counter 0, session table empty), no state change by earlier ticks, charge counter bookkeeping. "
               "non-trivial = step whose expected state differs or a timeout boundary; histories: >= 1 tick-driven session end; distinct = digest of the case";
     bool ok = true;
@@ -162,6 +196,16 @@ int main(int argc, char **argv) {
                 }
             }
         ev.extra["single_steps_exhaustive"] = "true";
+        // the 30 s rule through the primitive API: every start state x table filling x charge count x silence
+        for (int st = 0; st < 3 && ok; st++) for (int ns : {0, 1, 16}) for (int ch : {0, 3}) for (int sil : {0, 1, 29, 30, 31, 45, 60, 61, 120}) {
+            if (!ok || k++ % a.nshards != a.shard) continue;
+            Case c; c.cfg = {2, st, ns, ch, sil};
+            CurrentScope scope(c);
+            Verdict v = run(c);
+            ev.note(c.digest(), v.nontrivial && v.ok, [&] { return c.to_text(); });
+            for (auto &x : v.classes) ev.count("c14-tick30:" + x);
+            if (!v.ok) { write_file(a.failing, "# c14-tick30: " + v.why + "\n" + c.to_text()); fprintf(stderr, "FAIL part=c14-tick30 %s\n", v.why.c_str()); ok = false; }
+        }
     }
     if (ok) {
         auto gen = rc::gen::exec([] {
